@@ -8,10 +8,10 @@ SCR="$(mktemp -d /tmp/dsim_harmless.XXXXXX)"
 trap 'rm -rf "$SCR"' EXIT
 rsync -a --exclude .git --exclude __pycache__ /repo/ "$SCR/"
 ( cd "$SCR" && patch -p1 -s < "$DIR/patch.diff" ) || { echo "PATCH-FAILED"; exit 3; }
-T=$(cd "$SCR" && PYTHONPATH="$SCR" timeout 900 /venv/bin/python -m pytest -q -p no:cacheprovider --timeout=900 2>&1 | tail -1)
-echo "tests: $T"
+[ -n "${HARMLESS_NO_TESTS:-}" ] || T=$(cd "$SCR" && PYTHONPATH="$SCR" timeout 900 /venv/bin/python -m pytest -q -p no:cacheprovider --timeout=900 2>&1 | tail -1)
+echo "tests: ${T:-skipped}"
 bad=0
-for c in C03 C04 C05 C06 C07 C10 C13 C14 C15 C18 C20; do
+for c in ${HARMLESS_CHECKS:-C03 C04 C05 C06 C07 C10 C13 C14 C15 C18 C20}; do
   out=$(cd "$VERIF" && DSIM_REPO="$SCR" ./check "$c" --tier quick --no-evidence ${HARMLESS_ARGS:-} 2>&1); rc=$?
   if [ $rc -ne 0 ]; then bad=1; echo "ALARM $c rc=$rc"; echo "$out" | grep -E "failing clauses|VIOLATION|HARNESS|clause=" | head -6 | sed "s#$SCR#<scratch>#g"; else echo "quiet $c"; fi
 done
